@@ -8,6 +8,7 @@ import (
 	"os/exec"
 	"path/filepath"
 	"runtime"
+	"runtime/debug"
 	"sort"
 	"strconv"
 	"strings"
@@ -76,6 +77,7 @@ var owned = map[string][]string{
 	"C08": {"size", "panic"},
 	"C13": {"deadlock", "livelock", "panic"},
 	"C16": {"read-", "lin", "panic"},
+	"C14": {"race", "payload", "panic"},
 }
 
 func ownedBy(prop, rule string) bool {
@@ -121,7 +123,12 @@ func Execute(c *Case) *Outcome {
 }
 
 func executeConc(c *Case) *Outcome {
-	res := RunConc(c.Conc, wantFor(c.Property))
+	var res *ConcResult
+	if c.Property == "C14" {
+		res = RunRace(c.Conc)
+	} else {
+		res = RunConc(c.Conc, wantFor(c.Property))
+	}
 	o := &Outcome{TraceHash: res.TraceHash, NonTrivial: res.NonTrivial, Probes: res.Probes, Steps: res.Steps,
 		Switches: res.Switches, SimTime: res.SimTime, Decisions: res.Decisions, Diverged: res.Diverged}
 	o.Lin = [4]int{res.LinOK, res.LinIllegal, res.LinUnknown, res.LinSkipped}
@@ -196,6 +203,9 @@ type FoundViolation struct {
 	Signature string `json:"signature"`
 	Seed      uint64 `json:"seed"`
 	RunIndex  int    `json:"run_index"`
+	// NonReplayable: native hash mode or real GC involved; the case is
+	// reported without the fresh-process replay
+	NonReplayable bool `json:"non_replayable"`
 }
 
 func strategyName(s simrt.StrategyConfig) string {
@@ -281,6 +291,7 @@ func runWorker(prop, tier string, base uint64, wi, nw, runs int, budget time.Dur
 		seed := seedFor(base, prop, i)
 		c := pd.Gen(seed, tier)
 		c.Property, c.Seed, c.RunIndex, c.Tier = prop, seed, i, tier
+		gcTick()
 		o := Execute(c)
 		out.Runs++
 		out.noteCase(c)
@@ -332,6 +343,22 @@ func runWorker(prop, tier string, base uint64, wi, nw, runs int, budget time.Dur
 	}
 }
 
+// The collector is switched off while a run executes (an address that is
+// freed and reused inside one run would get the ordinal of the old object and
+// change the event-trace hash, although not the schedule); it runs between
+// runs instead.
+var gcCount int
+
+func gcTick() {
+	if gcCount == 0 {
+		debug.SetGCPercent(-1)
+	}
+	gcCount++
+	if gcCount%64 == 0 {
+		runtime.GC()
+	}
+}
+
 func nonReplayable(c *Case) bool {
 	if c.Conc != nil && c.Conc.HashMode == "native" {
 		return true
@@ -364,7 +391,7 @@ func reportViolation(c *Case, o *Outcome, replayDir string) FoundViolation {
 	path := filepath.Join(replayDir, fmt.Sprintf("%s-%d-%d.json", c.Property, c.Seed, c.RunIndex))
 	b, _ := json.MarshalIndent(min, "", " ")
 	os.WriteFile(path, b, 0o644)
-	return FoundViolation{Rule: min.Rule, Detail: min.Explanation, Replay: path, Signature: min.Signature, Seed: c.Seed, RunIndex: c.RunIndex}
+	return FoundViolation{Rule: min.Rule, Detail: min.Explanation, Replay: path, Signature: min.Signature, Seed: c.Seed, RunIndex: c.RunIndex, NonReplayable: nonReplayable(c)}
 }
 
 // ---------------------------------------------------------------------------
@@ -435,6 +462,7 @@ func main() {
 			if nonReplayable(c) {
 				continue
 			}
+			gcTick()
 			o := Execute(c)
 			fmt.Fprintf(f, "%d %016x %d %d\n", i, o.TraceHash, o.Steps, len(o.Violations))
 		}
@@ -488,7 +516,8 @@ func runParent(pd *PropDef, tier string, seed uint64, n int, budget time.Duratio
 		cmd := exec.Command(self, args...)
 		cmd.Stdout = os.Stderr
 		cmd.Stderr = os.Stderr
-		cmd.Env = append(os.Environ(), "GORACE=halt_on_error=0 log_path="+filepath.Join(tmp, fmt.Sprintf("race%d", i)))
+		racelog := filepath.Join(tmp, fmt.Sprintf("race%d", i))
+		cmd.Env = append(os.Environ(), "GORACE=halt_on_error=0 exitcode=0 log_path="+racelog, "VERIF_RACELOG="+racelog)
 		if err := cmd.Start(); err != nil {
 			fmt.Fprintln(os.Stderr, err)
 			return 2
@@ -498,6 +527,9 @@ func runParent(pd *PropDef, tier string, seed uint64, n int, budget time.Duratio
 	trouble := ""
 	for i, cmd := range cmds {
 		if err := cmd.Wait(); err != nil {
+			if pd.ID == "C14" && cmd.ProcessState.ExitCode() == 66 {
+				continue // the race detector's exit status after it reported a race
+			}
 			trouble = fmt.Sprintf("worker %d: %v", i, err)
 		}
 	}
@@ -549,14 +581,18 @@ func runParent(pd *PropDef, tier string, seed uint64, n int, budget time.Duratio
 		}
 	}
 	// C14: race reports are parsed from the detector's log files
-	var raceFindings []FoundViolation
 	if pd.ID == "C14" {
-		var rt string
-		raceFindings, rt = collectRaceReports(tmp, replayDir)
-		if rt != "" {
-			trouble = rt
+		inCode, driverOnly, sample := collectRaceReports(tmp, replayDir)
+		agg.Probes["race_reports_in_code"] = inCode
+		if inCode == 0 && driverOnly > 0 {
+			trouble = "race reports located purely in driver/simulator code (my bug, not a verdict): " + sample
+			agg.Violations = nil
 		}
-		agg.Violations = append(agg.Violations, raceFindings...)
+		for i := range agg.Violations {
+			if agg.Violations[i].Rule == "race" {
+				agg.Violations[i].Detail += "\n" + sample
+			}
+		}
 	}
 	wall := time.Since(start).Seconds()
 
@@ -582,11 +618,15 @@ func runParent(pd *PropDef, tier string, seed uint64, n int, budget time.Duratio
 	// confirm fresh violations by replaying them in this (fresh) process tree
 	var confirmed []FoundViolation
 	for _, v := range fresh {
-		if v.Replay == "" || strings.HasPrefix(v.Rule, "race") {
+		if v.Replay == "" || v.NonReplayable {
 			confirmed = append(confirmed, v)
 			continue
 		}
 		cmd := exec.Command(self, "-replay", v.Replay)
+		if pd.ID == "C14" {
+			rl := filepath.Join(tmp, "replayrace")
+			cmd.Env = append(os.Environ(), "GORACE=halt_on_error=0 exitcode=0 log_path="+rl, "VERIF_RACELOG="+rl)
+		}
 		outb, _ := cmd.CombinedOutput()
 		code := cmd.ProcessState.ExitCode()
 		if code == 1 {
@@ -664,6 +704,9 @@ func runParent(pd *PropDef, tier string, seed uint64, n int, budget time.Duratio
 		return 2
 	}
 	if len(confirmed) > 0 {
+		if len(confirmed) > 12 {
+			confirmed = confirmed[:12]
+		}
 		for _, v := range confirmed {
 			fmt.Printf("VIOLATION property=%s replay=%s\n", pd.ID, v.Replay)
 			fmt.Printf("  rule=%s %s\n", v.Rule, firstLine(v.Detail))
